@@ -239,8 +239,62 @@ def rule_group_run_closed(ctx: Ctx) -> None:
         ctx.ok("group.run-closed", m, inner, what="no continue in the grouping loop")
 
 
+OP_STATE_FIELDS = {"params", "register", "reg_type", "noise", "q_registers", "q_registers_type", "c_registers", "control", "target", "control_type",
+                   "target_type", "c_register", "operations", "param_info"}
+CIRCUIT_MUTATORS_ = {"add", "insert_at", "remove_op", "replace_op", "unwrap_nodes", "remove_identity", "group_one_qubit_gates", "_add", "_insert_at", "initialize_parameters"}
+
+
+def rule_copy_faithful(ctx: Ctx) -> None:
+    """copy.faithful: a circuit's copy() is a deep copy of the whole object, which compiles to the same state by construction.  Anything the
+    method does to the copy afterwards has to leave its operations alone: a store into a state-defining field of one of the copy's
+    operations (its parameters, registers, noise ...) makes the copy a different circuit (parameterised gates whose params are
+    re-derived from a lookup lose their angles).  Re-building caches of the copy (`_map`) is not a store into an operation."""
+    repo = ctx.repo
+    n = 0
+    for rel, q in (("graphiq/circuit/circuit_base.py", "CircuitBase.copy"),):
+        m = repo.module(rel)
+        fn = repo.anchor(rel, q)
+        ctx.touch(m, fn)
+        n += 1
+        deep = [c for c in calls_in(fn) if call_name(c) in ("copy.deepcopy", "deepcopy") and c.args and norm(c.args[0]) == "self"]
+        if not deep:
+            ctx.fail("copy.faithful", m, fn, f"{q} no longer deep-copies the circuit (copy.deepcopy(self)): operations shared with the original are changed with it",
+                     func=q, construct=f"{q}: no deep copy")
+            continue
+        copies = {norm(a.targets[0]) for a in ast.walk(fn) if isinstance(a, ast.Assign) and any(d is a.value for d in deep)}
+        # names that range over operations of the copy
+        opvars = set()
+        for l in ast.walk(fn):
+            it = l.iter if isinstance(l, ast.For) else None
+            if it is not None and isinstance(l.target, ast.Name) and any(isinstance(x, ast.Name) and x.id in copies for x in ast.walk(it)):
+                opvars.add(l.target.id)
+        bad = []
+        for a in ast.walk(fn):
+            tg = a.targets if isinstance(a, ast.Assign) else [a.target] if isinstance(a, (ast.AugAssign, ast.AnnAssign)) else []
+            for t in tg:
+                if isinstance(t, ast.Attribute) and t.attr in OP_STATE_FIELDS and isinstance(t.value, ast.Name) and t.value.id in opvars:
+                    bad.append((a, f"stores `{short(a, 80)}` into the operations of the copy"))
+                if isinstance(t, ast.Attribute) and isinstance(t.value, ast.Name) and t.value.id in copies and t.attr in ("parameters", "_parameters", "dag"):
+                    raise AnalysisError(f"{q}: the copy's `{t.attr}` is reassigned after the deep copy; not decided")
+        for c in calls_in(fn):
+            if call_attr(c) in CIRCUIT_MUTATORS_ and isinstance(c.func, ast.Attribute) and norm(c.func.value) in copies:
+                raise AnalysisError(f"{q}: the copy is edited with `{short(c)}` after the deep copy; not decided")
+            if call_name(c) == "setattr" and c.args and isinstance(c.args[0], ast.Name) and c.args[0].id in opvars:
+                bad.append((c, f"`{short(c)}` stores into the operations of the copy"))
+        if bad:
+            for node, why in bad:
+                ctx.fail("copy.faithful", m, node, f"{q} {why}: the deep copy already carries every operation's own state, and a value re-derived here (a lookup that "
+                                                    f"misses gives the default) replaces it, so the copy of a circuit with parameterised gates no longer compiles to the same state",
+                         func=q, construct=f"{q}: store into the copy's operations")
+        else:
+            ctx.ok("copy.faithful", m, fn, what="deep copy returned without touching its operations")
+    if n == 0:
+        raise AnalysisError("copy.faithful: no copy method found")
+
+
 def run(ctx: Ctx) -> None:
     rule_group_run_closed(ctx)
+    rule_copy_faithful(ctx)
     from ..rules import placement as _placement
     _placement.rule_noise_placement(ctx)
     rule_unwrap_source(ctx)
@@ -478,6 +532,8 @@ def rule_unwrap_source(ctx: Ctx) -> None:
 
 
 KNOCKOUTS = [
+    Knockout("copy-rederives-op-params", "graphiq/circuit/circuit_base.py", sub_once("        return copy.deepcopy(self)\n", "        new_circuit = copy.deepcopy(self)\n        for op in new_circuit.sequence():\n            op.params = new_circuit._parameters.get(new_circuit._map.get(id(op)), tuple())\n        return new_circuit\n"), "copy.faithful", "operations of the copy"),
+    Knockout("copy-is-shallow", "graphiq/circuit/circuit_base.py", sub_once("        return copy.deepcopy(self)\n", "        return copy.copy(self)\n"), "copy.faithful", "deep-copies"),
     Knockout("grouping-wrapper-without-reg-type", DAG, sub_nth("                                        gate_list, register, reg_type, noise=noise_list\n", "                                        gate_list, register=register, noise=noise_list\n", 0), "group.run-closed", "without the walked register"),
     Knockout("unwrap-noise-carrier-without-reg-type", "graphiq/circuit/ops.py", sub_once("            noise = Identity(\n                register=self.register, reg_type=self.reg_type, noise=self.noise\n            )", "            noise = Identity(self.register, noise=self.noise)"), "unwrap.order", "Identity@R/e"),
     Knockout("unwrap-skips-single-gate-wrappers", DAG, sub_once("                op_list = self.dag.nodes[node][\"op\"].unwrap()\n", "                op_list = self.dag.nodes[node][\"op\"].unwrap()\n                if len(op_list) < 2:\n                    continue\n"), "order.wrapper", "skipped"),
